@@ -738,6 +738,8 @@ static struct {
     const unsigned char *base;
     uint64_t moved, total, percall;
     int first; /* behaviour of the first call: 0 normal, 1 EINTR, 2 zero, 3 seven octets */
+    unsigned fail_after; /* > 0: the fail_after-th call (1-based) reports fail_code */
+    int fail_code;
     unsigned calls;
     int bad_ptr, bad_ask;
 } hg;
@@ -752,6 +754,8 @@ hg_step(const unsigned char *p, size_t n)
         hg.bad_ptr = 1;
     if (n > hg.total - hg.moved)
         hg.bad_ask = 1;
+    if (hg.fail_after && call + 1 == hg.fail_after)
+        return hg.fail_code;
     if (call == 0 && hg.first == 1)
         return -EINTR;
     if (call == 0 && hg.first == 2)
@@ -810,6 +814,34 @@ u_huge(uint64_t idx, void *arg)
                                 Ns[ni], pers[pi], first, rc, hg.moved, hg.bad_ptr, hg.bad_ask);
                     (*vh_ncases)++;
                 }
+    /* the largest legal count, SSIZE_MAX, and its neighbour: legal requests that no stream can satisfy - the
+     * driver moves a few octets and then reports an error, which must come back unchanged (N = SSIZE_MAX + 1 is
+     * the first illegal count and is covered by 'invalid') */
+    {
+        static const uint64_t Nmax[] = { (uint64_t)SSIZE_MAX, (uint64_t)SSIZE_MAX - 1, (uint64_t)SSIZE_MAX / 2 + 1 };
+        static const int errs[] = { -EIO, -ENODATA, -ENOMEM, -EPIPE };
+        for (size_t ni = 0; ni < 3; ni++)
+            for (size_t ei = 0; ei < 4; ei++)
+                for (unsigned before = 0; before < 3; before++)
+                    for (int dir = 0; dir < 2; dir++) {
+                        memset(&hg, 0, sizeof hg);
+                        hg.base = base;
+                        hg.total = Nmax[ni];
+                        hg.percall = 2; /* two octets per call ... */
+                        hg.first = 0;
+                        hg.fail_after = before + 1; /* ... and then the error */
+                        hg.fail_code = errs[ei];
+                        VH_CASE4(100 + ni, ei, before, dir);
+                        ssize_t rc = dir ? sink_put_chunk(&k, base, (size_t)Nmax[ni]) : source_get_chunk(&s, base, (size_t)Nmax[ni]);
+                        char key[80];
+                        snprintf(key, sizeof key, "api=%s driver=chunk size=largest-legal", dir ? "sink_put_chunk" : "source_get_chunk");
+                        if (rc != errs[ei] || hg.moved != 2ull * before || hg.bad_ptr || hg.bad_ask)
+                            vh_fail("hard-error-not-returned", key, "N=%" PRIx64 " driver moves %u octets and then reports %d: rc=%zd moved %" PRIx64
+                                    " bad pointer %d asks beyond %d", Nmax[ni], 2 * before, errs[ei], rc, hg.moved, hg.bad_ptr, hg.bad_ask);
+                        (*vh_ncases)++;
+                    }
+        VH_COUNT("largest legal count (SSIZE_MAX) requested from a stream that ends with an error");
+    }
     VH_COUNT("huge transfers (a single driver call moves 2^31 octets or more)");
     vh_sig(0x17800000ull);
     vh_sample("huge", "source_get_chunk / sink_put_chunk of 2^31-1 .. 2^33+5 octets through counting chunk drivers that move up to "
@@ -992,6 +1024,7 @@ harness_run(void)
                                  "library endpoints: source ended or sink filled up", "library endpoints: buffer source",
                                  "library endpoints: zero/empty/null",
                                  "huge transfers (a single driver call moves 2^31 octets or more)", "scripts of length 5 enumerated (chunk driver)",
+                                 "largest legal count (SSIZE_MAX) requested from a stream that ends with an error",
                                  "scripts of length 5 enumerated (octet driver)" };
     for (size_t i = 0; i < sizeof req / sizeof req[0]; i++)
         vh_require(req[i]);
